@@ -79,4 +79,41 @@ def scanRun (size : Nat) (step : Nat → Option Nat) : Nat → Nat → Nat → S
       | none => .undisciplined
     else .done c n
 
+/-- what can fly out of `_scan`: subclasses of `Exception` (KeyError from a dict lookup behind the case-insensitive
+    trie, IndexError from `sql[...]`, RecursionError from nested command scanning, ValueError, TokenError itself, …) -/
+inductive Exc where
+  | tokenError | indexError | keyError | recursionError | valueError | typeError | otherException
+  deriving DecidableEq, Repr
+
+def Exc.name : Exc → String
+  | .tokenError => "TokenError" | .indexError => "IndexError" | .keyError => "KeyError"
+  | .recursionError => "RecursionError" | .valueError => "ValueError" | .typeError => "TypeError"
+  | .otherException => "Exception"
+
+/-- does `except (h1, h2, …)` catch `e`?  Every `Exc` is a subclass of `Exception` -/
+def catches (handlers : List String) (e : Exc) : Bool :=
+  handlers.contains "Exception" || handlers.contains "BaseException" || handlers.contains e.name
+
+inductive TokOut where
+  | ok                 -- `tokenize` returned the tokens
+  | tokenError         -- raised TokenError
+  | leaked (e : Exc)   -- something else flew out of `tokenize`
+  | running            -- the scan loop was still iterating when the fuel ran out
+  deriving DecidableEq, Repr
+
+/-- the handler of `TokenizerCore.tokenize`: `except <handlers> as e: raise <raises>(…) from e` -/
+def funnel (handlers raises : List String) (e : Exc) : TokOut :=
+  if catches handlers e then (if raises = ["TokenError"] then .tokenError else .leaked .otherException)
+  else if e = .tokenError then .tokenError else .leaked e
+
+/-- `TokenizerCore.tokenize`: the scan loop with iterations that may raise, inside the funnel -/
+def tokenizeModel (handlers raises : List String) (size : Nat) (step : Nat → Except Exc Nat) : Nat → Nat → TokOut
+  | 0, c => if c < size then .running else .ok
+  | fuel + 1, c =>
+    if c < size then
+      match step c with
+      | .ok c' => tokenizeModel handlers raises size step fuel c'
+      | .error e => funnel handlers raises e
+    else .ok
+
 end SqlglotModel.ScanProgress
